@@ -322,7 +322,9 @@ def run(chk, grid, d, evaluate, extra=None, target=60000, shrink=None):
         if core.canon_json([a[0], sorted(core.canon_json([f[0], f[1]]) for f in a[1]), sorted(a[2].items())]) != core.canon_json(
             [b[0], sorted(core.canon_json([f[0], f[1]]) for f in b[1]), sorted(b[2].items())]
         ):
-            raise core.Harness("non-deterministic evaluation in grid " + grid.name)
+            # the same shard evaluated twice in one process gave different observations: either the library keeps
+            # state between calls (decided by the H2 pass / reported at the end) or the harness is broken
+            chk.nondeterministic.append(grid.name)
     total = 0
     failures = []
     tags = Counter()
